@@ -81,7 +81,9 @@ def jobs(tier):
         # that has found a solution is held back before it publishes it, so that a second one finds one as well
         add("pSBL", "removal", range="huge", budget=300, threads=3, map=(3, 3, [1, 4, 7], 0, 2))
         add("pSBL", "removal", range="huge", budget=250, threads=3, map=(4, 3, [1, 5, 9], 0, 3))
-        add("pSBL", "removal", range="huge", budget=250, threads=3, map=(3, 3, [1, 4, 7], 0, 2))
+        # (every 7th tree insertion is held back inside its iteration: the others then find loopLock_ taken - try_lock fails)
+        add("pSBL", "removal-contended", range="huge", budget=400, threads=3, map=(3, 3, [1, 4, 7], 0, 2),
+            stall=["pSBL.addMotion%7"])
         add("pSBL", "plain", range="small", budget=600, map=(3, 3, [], 0, 1), threads=3, stall=["pSBL.connectionPoint#1"])
         add("pSBL", "plain", range="default", budget=400, map=(2, 1, [], 0, 1), stall=["pSBL.connectionPoint#1"])
         add("pSBL", "plain", range="small", budget=500, map=(3, 3, [], 0, 1), threads=2, stall=["pSBL.connectionPoint#1"])
